@@ -56,7 +56,12 @@ Record gov_shape := {
   sh_tally_checks : list tally_check;
   (* --- SubmitProposal: checkProposalMsgs --- *)
   sh_mixed_compare : cmp_expr;
-  sh_mixed_fold : bool (* compared with strings.EqualFold *) }.
+  sh_mixed_fold : bool; (* compared with strings.EqualFold *)
+  (* --- GetCustomMsgQuorum / GetCustomMsgVotingPeriod --- *)
+  (* the body is exactly: look the key up; if found return the STORED field; else return the default —
+     no other return, i.e. no stored value (0 included) is ever replaced by the default *)
+  sh_quorum_default_only_absent : bool;
+  sh_period_default_only_absent : bool }.
 
 (* ------------------------------------------------------------------ the shape M_Gov transcribes *)
 Definition model_eb_order : list eb_step := [EB_Tally; EB_Payout; EB_Dequeue; EB_Outcome; EB_SetTally; EB_Save].
@@ -133,6 +138,15 @@ Definition deposited_sh (sh : gov_shape) (P : params) (kf : keyfun) (cust : list
        p_submit := p_submit q; p_dep_end := p_dep_end q; p_vstart := p_vstart q; p_vend := p_vend q;
        p_votes := p_votes q; p_tally := p_tally q; p_act_total := p_act_total q; p_act_req := p_act_req q;
        p_act_period := p_act_period q; p_quorum_used := p_quorum_used q |}.
+
+(* ------------------------------------------------------------------ stored value or default *)
+(* M_Gov.quorum_for / period_for return the stored field whenever an entry exists.  If the code has
+   further fallbacks nothing is claimed about stored values. *)
+Definition quorum_for_sh (sh : gov_shape) (P : params) (kf : keyfun) (cust : list (Z * cparams)) (p : proposal) : Z :=
+  if sh_quorum_default_only_absent sh then quorum_for P kf cust p else quorum P.
+Definition period_for_sh (sh : gov_shape) (P : params) (kf : keyfun) (cust : list (Z * cparams)) (p : proposal) : Z :=
+  if sh_period_default_only_absent sh then period_for P kf cust p
+  else if p_expedited p then exp_voting_period P else voting_period P.
 
 (* ------------------------------------------------------------------ the single-type check *)
 (* M_Gov.check_msgs compares message type ids (= type URLs up to case).  If the code compares
